@@ -27,6 +27,7 @@ import (
 
 type ncase struct {
 	Path []string   `json:"path"`
+	Slot []string   `json:"slot"` // position and shape of the expression slot of a slot frame
 	Toks []string   `json:"toks"`
 	T    []string   `json:"T"`
 	TQ   [][]string `json:"TQ"`
@@ -38,6 +39,14 @@ type ncase struct {
 
 var run *core.Run
 var reLevel = regexp.MustCompile(`^[a-zA-Z]+?(\d)`)
+
+func pathKey(c *ncase) string {
+	k := strings.Join(c.Path, ">")
+	if len(c.Slot) == 2 && c.Slot[0] != "-" {
+		k += "[" + c.Slot[0] + ":" + c.Slot[1] + "]"
+	}
+	return k
+}
 
 func set(xs []string) map[string]bool {
 	m := map[string]bool{}
@@ -64,10 +73,19 @@ func owner(c *ncase, name string) string {
 	if l < 1 || l > len(c.Path) {
 		return "?"
 	}
-	if l == 1 {
-		return c.Path[0]
+	kind := c.Path[l-1]
+	if strings.HasPrefix(kind, "slot-") && len(c.Slot) == 2 {
+		// a name of the expression (c<L>e.., FA<L>..) or of the frame around it
+		role := "frame"
+		if regexp.MustCompile(`^(c\d[efg]|F[ABC]\d)$`).MatchString(base) || base == "COUNT" {
+			role = c.Slot[1]
+		}
+		kind = "slot:" + c.Slot[0] + ":" + role
 	}
-	return c.Path[l-1] + "-in-" + c.Path[l-2]
+	if l == 1 {
+		return kind
+	}
+	return kind + "-in-" + c.Path[l-2]
 }
 
 func classifyExtra(c *ncase, name string) string {
@@ -93,7 +111,7 @@ func classifyExtra(c *ncase, name string) string {
 }
 
 func compare(c *ncase, what string, got []string, want []string, layout int, text string) {
-	cse := map[string]any{"kind": "names", "path": c.Path, "sql": text, "layout": layout, "result": what}
+	cse := map[string]any{"kind": "names", "path": c.Path, "slot": c.Slot, "sql": text, "layout": layout, "result": what}
 	seen := map[string]int{}
 	for _, g := range got {
 		seen[g]++
@@ -153,7 +171,7 @@ func main() {
 		tier = "quick"
 	}
 	run = core.NewRun("C15", tier, "model_checking")
-	run.Rule = "every composition of Names.tla (24 leaf frames x 21 kinds of hole, depth <= 2 quick / 3 thorough) x 4 layouts x 6 extraction functions; non-trivial = a composition of depth >= 2 or one with aliases, literals or shared names"
+	run.Rule = "every composition of Names.tla (24 leaf frames and 30 expression positions x 26 expression shapes, x 21 kinds of hole, depth <= 2 quick / 3 thorough) x 4 layouts x 6 extraction functions; non-trivial = a composition of depth >= 2 or one with aliases, literals or shared names"
 	run.Assumptions = []string{
 		"a CTE referenced in FROM is a name written in a table position and is expected as written",
 		"the unqualified table variant reports a qualified table as written (schema.name); column qualifiers are reported as written (an alias used as a qualifier is a qualifier, not an extracted table)",
@@ -176,7 +194,7 @@ func main() {
 			tree, err := gosqlx.Parse(text)
 			run.Eval(1)
 			if err != nil {
-				rejected[strings.Join(c.Path, ">")]++
+				rejected[pathKey(&c)]++
 				continue
 			}
 			if len(c.Path) > 1 || len(c.A) > 0 {
